@@ -588,7 +588,8 @@ Inductive cev : Type :=
 | CRecv (pkttype id : Z) (payload : bytes)   (* a well-framed packet arrives *)
 | CBadFrame                              (* a packet too short to hold type and id *)
 | CEof                                   (* the channel ends *)
-| CCancel (w : Z).                       (* the task awaiting request w is cancelled *)
+| CCancel (w : Z)                        (* the task awaiting request w is cancelled *)
+| CAbort.                                (* the stream fails: ConnectionLost / DisconnectError (SSH Error) or OSError (reset) *)
 
 Inductive cout : Type :=
 | OSent (w id : Z)                        (* request of waiter w went out with this id *)
@@ -642,6 +643,8 @@ Definition c_step (s : cstate) (e : cev) : cstate * list cout :=
       else (s, [])
   | CBadFrame => if c_open s then c_cleanup s (ESftp FX_BAD_MESSAGE) else (s, [])
   | CEof => if c_open s then c_cleanup s (ESftp FX_CONNECTION_LOST) else (s, [])
+  (* recv_packets: except (OSError, Error) as exc -> _cleanup(exc): every waiter gets that exception *)
+  | CAbort => if c_open s then c_cleanup s EOther else (s, [])
   | CCancel w =>
       if c_open s && memz w (map snd (c_reqs s)) && negb (memz w (c_cancelled s))
       then (mkc (c_next s) (c_count s) (c_reqs s) true (w :: c_cancelled s), [OCancelled w])
